@@ -128,7 +128,7 @@ Print Assumptions C01_flow_at_points.
    Biot-Savart line integral over the segment: with ra = PC - A, rb = PC - B, dl = (B - A) dt and rho(t) the vector from the point
    A + t (B - A) to the control point, each component of int_0^1 dl x rho / |rho|^3 equals that component of
    (|ra|+|rb|) (ra x rb) / (|ra||rb| (|ra||rb| + ra.rb)), whenever the control point is not on the line through A and B.
-   (The semi-infinite trailing filaments - the limit of this formula as B goes to infinity along u - are not proved.) ---- *)
+   The semi-infinite trailing filaments follow below.) ---- *)
 Theorem C01_segment_is_biot_savart : forall ra rb : v3 R, vnorm2 (vcross ra rb) <> 0 ->
   let integrand := fun t => vscale (/ (vnorm2 (rho ra rb t) * sqrt (vnorm2 (rho ra rb t)))) (vcross (vsub ra rb) (rho ra rb t)) in
   is_RInt (fun t => vx (integrand t)) 0 1 (vx (seg_kernel ra rb)) /\
@@ -139,3 +139,29 @@ Proof.
   split; [|split]; apply (seg_kernel_is_biot_savart ra rb H); intros k [x y z]; reflexivity.
 Qed.
 Print Assumptions C01_segment_is_biot_savart.
+
+(* ---- a trailing filament leaves its joint along the unit vector u and is followed to infinity: for every length T the truncated
+   Biot-Savart integral int_0^T (u x rho) / |rho|^3 dt exists, and its limit for T -> infinity is, component by component, the closed form
+   (u x r) / (|r| (|r| - u.r)) that the code evaluates (scene.py 621-639), whenever the control point is not on the line of the filament;
+   [trail_kernel] is that closed form whenever it is kept, i.e. above the cut-off ---- *)
+Theorem C01_trailing_is_biot_savart : forall u r : v3 R, vnorm2 u = 1 -> 0 < vnorm2 r - vdot u r * vdot u r ->
+  let integrand := fun t => vscale (/ (vnorm2 (rho_t u r t) * sqrt (vnorm2 (rho_t u r t)))) (vcross u (rho_t u r t)) in
+  let closed := vdivs (vcross u r) (vnorm r * (vnorm r - vdot u r)) in
+  forall proj, (proj = vx \/ proj = vy \/ proj = vz) ->
+  exists I : R -> R, (forall T, is_RInt (fun t => proj (integrand t)) 0 T (I T)) /\ is_lim I p_infty (proj closed).
+Proof.
+  intros u r Hu Hnc integrand closed proj Hp.
+  assert (Hproj : forall k v, proj (vscale k v) = k * proj v) by (destruct Hp as [E|[E|E]]; rewrite E; intros k [x y z]; reflexivity).
+  destruct (trail_kernel_is_biot_savart u r Hu Hnc proj Hproj) as [H1 H2].
+  eexists. split; [exact H1 | exact H2].
+Qed.
+Print Assumptions C01_trailing_is_biot_savart.
+
+Theorem C01_trail_kernel_closed_form : forall (cutoff : R) (u r : v3 R), cutoff < trail_denom u r ->
+  trail_kernel (fun x => x) cutoff u r = vdivs (vcross u r) (vnorm r * (vnorm r - vdot u r)).
+Proof.
+  intros cutoff u r H. unfold trail_kernel, trail_denom in *. cbv zeta. rnum. unfold Rltb.
+  destruct (Rlt_dec cutoff (vnorm r * (vnorm r - vdot u r))) as [_|Hn]; [|exfalso; apply Hn; exact H].
+  destruct (vcross u r); reflexivity.
+Qed.
+Print Assumptions C01_trail_kernel_closed_form.
